@@ -453,6 +453,34 @@ Proof.
   - intros. now apply resolver_used_only_at_host.
 Qed.
 
+(* ================================================================ histories: no state besides the installed policy *)
+Lemma history_stateless parse_ip resolve_at ip_str re_match pre : forall pol n s,
+  run_history parse_ip resolve_at ip_str re_match pol n (pre ++ [HCheck s]) =
+  run_history parse_ip resolve_at ip_str re_match pol n pre ++
+  [parse_or_resolve parse_ip (resolve_at (n + length pre)%nat) ip_str re_match (policy_after pol pre) s].
+Proof.
+  induction pre as [|op pre IH]; intros pol n s.
+  - cbn. now rewrite Nat.add_0_r.
+  - destruct op as [s0|p]; cbn [app run_history policy_after length].
+    + rewrite IH. cbn [app]. now rewrite Nat.add_succ_r.
+    + rewrite IH. now rewrite Nat.add_succ_r.
+Qed.
+
+(* whatever was checked and admitted before, whatever the policies were: a string accepted now is accepted
+   under the policy in force now *)
+Lemma history_accepted_under_current_policy parse_ip resolve_at ip_str re_match pre pol n s out lk :
+  last (run_history parse_ip resolve_at ip_str re_match pol n (pre ++ [HCheck s])) (None, false) = (Some out, lk) ->
+  exists host port a z,
+    split_host_port s = Some (host, port) /\ port_ok port = true /\
+    dom_blocked re_match (policy_after pol pre) host = false /\
+    resolve_at (n + length pre)%nat host = Some (a, z) /\ valid_ip a = true /\
+    blocked (policy_after pol pre) a = false /\ out = join_host_port (ip_text ip_str a z) port.
+Proof.
+  rewrite history_stateless, last_last. intro H.
+  destruct (accepted_is_checked_literal _ _ _ _ _ _ _ _ H) as (host & port & a & z & _ & Hs & Hp & Hd & Hr & Hv & Hb & Ho & _).
+  exists host, port, a, z. repeat split; auto.
+Qed.
+
 Definition addr_is_v4 (ip : ipraw) : bool := match to4 ip with Some _ => true | None => false end.
 
 (* ================================================================ Go's net package, assumed *)
